@@ -124,6 +124,15 @@ func genPair(r *vproto.Rng, ka, kb string, class int) (S, S) {
 		}
 		class = 0
 	}
+	if class == 0 && ka != "B" && kb != "B" && r.Intn(4) == 0 {
+		// two rectilinear combs, one on even and one on odd coordinates: many vertical edges and
+		// crossings, never a shared coordinate (general position by construction)
+		mk := func(kind string) S {
+			return S{Kind: kind, Polys: []shapes.Poly{{shapes.Ortho(r, r.Range(3, 6), 6, 2)}}}
+		}
+		a, b := mk(ka), mk(kb)
+		return a, b.Translate(int64(2*r.Range(-2, 2)+1), int64(2*r.Range(-2, 2)+1))
+	}
 	for try := 0; try < 8; try++ {
 		bigA, bigB := true, true
 		swap := false
@@ -217,7 +226,7 @@ func gen(seed uint64, tier string) {
 	out := bufio.NewWriter(os.Stdout)
 	defer out.Flush()
 	r := vproto.NewRng(seed)
-	npairs := 330
+	npairs := 500
 	if tier == "thorough" {
 		npairs = 9000
 	}
